@@ -202,10 +202,12 @@ impl GateClock {
     }
 }
 
-struct FixedRng(u32);
+/// the id of the n-th file is the seed plus n (two files of one set never share a name)
+struct FixedRng(std::sync::atomic::AtomicU32);
 impl emit::Rng for FixedRng {
     fn fill<A: AsMut<[u8]>>(&self, mut arr: A) -> Option<A> {
-        let bytes = (self.0 as u64 | 0xdead_beef_0000_0000).to_le_bytes();
+        let v = self.0.fetch_add(1, std::sync::atomic::Ordering::SeqCst);
+        let bytes = (v as u64 | 0xdead_beef_0000_0000).to_le_bytes();
         for (i, b) in arr.as_mut().iter_mut().enumerate() {
             *b = bytes[i % 8];
         }
@@ -221,7 +223,7 @@ fn spawn(fs: &MemFs, clock: &GateClock, template: &str, max_files: usize, max_si
     emit_file::verif::spawn_with(
         fs.clone(),
         clock.clone(),
-        FixedRng(0x37c5_7fa1),
+        FixedRng(std::sync::atomic::AtomicU32::new(0x37c5_7fa1)),
         template,
         VerifRollBy::Minute,
         false,
@@ -232,6 +234,11 @@ fn spawn(fs: &MemFs, clock: &GateClock, template: &str, max_files: usize, max_si
             use emit::Props;
             // four bytes with the separator: e, two digits, newline (every second one leaves it to the emitter)
             let id = evt.props().pull::<i64, _>("id").unwrap_or(0);
+            if id < 0 {
+                // an event that cannot be formatted (after a partial write into the buffer)
+                buf.extend_from_slice(b"par");
+                return Err(io::Error::new(io::ErrorKind::Other, "scripted format failure"));
+            }
             buf.extend_from_slice(format!("e{:02}", id % 100).as_bytes());
             if id % 2 == 0 {
                 buf.push(b'\n');
@@ -384,14 +391,23 @@ fn run_scn(case: &Value, fails: &mut Vec<Value>) -> u64 {
     let mut bad = |step: usize, what: &str, got: Value, want: Value| fails.push(json!({"step": step, "what": what, "got": got, "want": want}));
     let fresh: Vec<usize> = steps.iter().enumerate().filter(|(_, s)| s["fresh"] == true).map(|(i, _)| i).collect();
     let mut next_id = 0i64;
-    let mut emit_batch = |n: u64| {
-        for _ in 0..n {
-            next_id += 1;
-            emit_id(&files, next_id);
+    let bad_emitted = Mutex::new(0u64);
+    let mut emit_batch = |step: &Value| {
+        let (n, bad) = (step["n"].as_u64().unwrap(), step["bad"].as_u64().unwrap_or(0));
+        *bad_emitted.lock().unwrap() += bad;
+        // the events that cannot be formatted go in between the others
+        for i in 0..n.max(bad) {
+            if i < bad {
+                emit_id(&files, -1);
+            }
+            if i < n {
+                next_id += 1;
+                emit_id(&files, next_id);
+            }
         }
     };
     // the first batch (one event) wakes the worker
-    emit_batch(steps[0]["n"].as_u64().unwrap());
+    emit_batch(&steps[0]);
     let mut emitted_upto = 0usize; // index into `fresh` of the last batch emitted
     for (j, step) in steps.iter().enumerate() {
         if !clock.wait_reads(j + 1, LIMIT) {
@@ -404,9 +420,9 @@ fn run_scn(case: &Value, fails: &mut Vec<Value>) -> u64 {
         fs.0.lock().unwrap().fault = if fault == "none" { None } else { Some(fault.to_string()) };
         if step["fresh"] == true && emitted_upto + 1 < fresh.len() && fresh[emitted_upto] == j {
             emitted_upto += 1;
-            emit_batch(steps[fresh[emitted_upto]]["n"].as_u64().unwrap());
+            emit_batch(&steps[fresh[emitted_upto]]);
         }
-        clock.permit(BASE_MS + (step["p"].as_u64().unwrap() - 1) * 60_000);
+        clock.permit(BASE_MS + (step["p"].as_u64().unwrap() - 1) * 60_000 + j as u64);
         // the invocation is over when the next one starts, or (the last one) when the set is flushed
         if j + 1 == steps.len() {
             if !files.blocking_flush(LIMIT) {
@@ -424,6 +440,12 @@ fn run_scn(case: &Value, fails: &mut Vec<Value>) -> u64 {
         // counters after invocation j (the next one is parked in the clock, or everything is flushed)
         let m = metrics(&files);
         let c = &step["ctr"];
+        // format failures are counted when the event is emitted: the events of the next batch are emitted while this
+        // invocation waits, so in between the running total is what was emitted; at the end it is the specification's
+        let want_ff = if j + 1 == steps.len() { c["event_format_failed"].as_u64().unwrap_or(0) } else { *bad_emitted.lock().unwrap() };
+        if m.get("event_format_failed").copied() != Some(want_ff) {
+            bad(j, "counter event_format_failed", json!(m.get("event_format_failed")), json!(want_ff));
+        }
         for k in ["file_create", "file_create_failed", "file_write_failed", "file_delete", "file_delete_failed", "file_set_read_failed"] {
             if m.get(k).copied() != c[k].as_u64() {
                 bad(j, &format!("counter {k}"), json!(m.get(k)), c[k].clone());
@@ -434,7 +456,7 @@ fn run_scn(case: &Value, fails: &mut Vec<Value>) -> u64 {
                 bad(j, &format!("counter {mk}"), json!(m.get(mk)), c[k].clone());
             }
         }
-        for k in ["configuration_failed", "event_format_failed", "file_open_failed", "file_queue_batch_panicked", "file_queue_full_truncated"] {
+        for k in ["configuration_failed", "file_open_failed", "file_queue_batch_panicked", "file_queue_full_truncated"] {
             if m.get(k).copied().unwrap_or(0) != 0 {
                 bad(j, &format!("counter {k}"), json!(m.get(k)), json!(0));
             }
